@@ -194,4 +194,226 @@ theorem upperEsc_of_no_pct {s : Str} (h : '%' ∉ s) : UpperEsc s := by
   | stray => rfl
   | esc h1 h2 => exact absurd (hsub '%' (by simp [renderTok])) h
 
+/-! ### the unquoters keep escapes upper-case -/
+
+theorem upperChar_hexDigitUpper : ∀ n, n < 16 → upperChar (hexDigitUpper n) = hexDigitUpper n := by
+  decide
+
+theorem upTok_escOfByte (b : UInt8) : UpTok (escOfByte b) := by
+  have h1 : b.toNat / 16 < 16 := by have := b.toNat_lt; omega
+  have h2 : b.toNat % 16 < 16 := by omega
+  simp [UpTok, escOfByte, upperTok, upperChar_hexDigitUpper _ h1, upperChar_hexDigitUpper _ h2]
+
+def ItemUp : Item → Prop
+  | .lit t => UpTok t
+  | .byte _ => True
+
+theorem itemUp_itemOf (U : List UInt8) (t : Tok) (ht : UpTok t) : ItemUp (itemOf U t) := by
+  cases t with
+  | raw c =>
+    simp only [itemOf]
+    split
+    · show upperTok _ = _; decide
+    · show UpTok _; rfl
+  | stray => show upperTok _ = _; decide
+  | esc h1 h2 =>
+    simp only [itemOf]
+    split
+    · exact ht
+    · split
+      · split
+        · show upperTok _ = _; decide
+        · show UpTok _; rfl
+      · trivial
+
+theorem upTok_flush (bs : List UInt8) : ∀ t ∈ flush bs, UpTok t := by
+  intro t ht
+  simp only [flush, List.mem_flatMap] at ht
+  obtain ⟨x, _, ht⟩ := ht
+  cases x with
+  | inl c =>
+    simp only at ht
+    split at ht
+    · simp only [List.mem_map] at ht
+      obtain ⟨b, _, rfl⟩ := ht
+      exact upTok_escOfByte b
+    · simp only [List.mem_singleton] at ht
+      subst ht; rfl
+  | inr b =>
+    simp only [List.mem_singleton] at ht
+    subst ht
+    exact upTok_escOfByte b
+
+theorem upTok_assemble (its : List Item) (acc : List UInt8) (hits : ∀ it ∈ its, ItemUp it) :
+    ∀ t ∈ assemble its acc, UpTok t := by
+  induction its generalizing acc with
+  | nil => simpa [assemble] using upTok_flush acc
+  | cons it its ih =>
+    have hrest : ∀ it' ∈ its, ItemUp it' := fun it' h => hits it' (by simp [h])
+    cases it with
+    | lit t0 =>
+      intro t ht
+      simp only [assemble, List.mem_append, List.mem_cons] at ht
+      rcases ht with ht | rfl | ht
+      · exact upTok_flush acc t ht
+      · exact hits (.lit t) (by simp)
+      · exact ih [] hrest t ht
+    | byte b =>
+      simp only [assemble]
+      exact ih _ hrest
+
+theorem tokens_safelyUnquote (U : List UInt8) (hU : (0x25 : UInt8) ∈ U) (s : Str) :
+    tokens (safelyUnquote U s) = unquoteToks U (tokens s) := by
+  have hout := outTok_unquoteToks U (tokens s) (wf_tokens s)
+  exact tokens_render_of_canon _ (fun t ht => canon_of_outTok hU (wf_tokens s) (hout t ht))
+
+/-- the safe unquoters keep escapes upper-case -/
+theorem upperEsc_safelyUnquote (U : List UInt8) (hU : (0x25 : UInt8) ∈ U) {s : Str}
+    (h : UpperEsc s) : UpperEsc (safelyUnquote U s) := by
+  intro t ht
+  rw [tokens_safelyUnquote U hU] at ht
+  unfold unquoteToks at ht
+  apply upTok_assemble _ _ _ t ht
+  intro it hit
+  simp only [List.mem_map] at hit
+  obtain ⟨t0, ht0, rfl⟩ := hit
+  exact itemUp_itemOf U t0 (h t0 ht0)
+
+/-! ### the components the parser returns have upper-case escapes -/
+
+theorem upperEsc_splitFirst {s : Str} {sep : Char} (hs : Sep sep) (h : UpperEsc s) :
+    UpperEsc (splitFirst s sep).1 ∧ UpperEsc ((splitFirst s sep).2.getD []) := by
+  have hspec := (splitFirst_spec_s20 s sep).2
+  cases hb : (splitFirst s sep).2 with
+  | none =>
+    rw [hb] at hspec
+    simp only [Option.getD_none]
+    exact ⟨by rw [← hspec]; exact h, upperEsc_nil⟩
+  | some b =>
+    rw [hb] at hspec
+    simp only [Option.getD_some]
+    rw [hspec] at h
+    exact (upperEsc_append_sep hs _ _).1 h
+
+theorem sep_of_netlocDelim {c : Char} (h : isNetlocDelim c = true) : Sep c := by
+  simp only [isNetlocDelim, Bool.or_eq_true, decide_eq_true_eq] at h
+  rcases h with (rfl | rfl) | rfl <;> exact ⟨by decide, by decide⟩
+
+theorem upperEsc_takeDrop {rest : Str} (h : UpperEsc rest) :
+    UpperEsc (rest.takeWhile (fun c => !isNetlocDelim c)) ∧
+    UpperEsc (rest.dropWhile (fun c => !isNetlocDelim c)) := by
+  have hcat := List.takeWhile_append_dropWhile (p := fun c => !isNetlocDelim c) (l := rest)
+  have hhead := List.head?_dropWhile_not (fun c => !isNetlocDelim c) rest
+  cases htl : rest.dropWhile (fun c => !isNetlocDelim c) with
+  | nil =>
+    rw [htl, List.append_nil] at hcat
+    rw [hcat]; exact ⟨h, upperEsc_nil⟩
+  | cons d tl =>
+    rw [htl] at hcat hhead
+    simp only [List.head?_cons, Bool.not_eq_false'] at hhead
+    have hsep := sep_of_netlocDelim hhead
+    rw [← hcat] at h
+    have := (upperEsc_append_sep hsep _ _).1 h
+    exact ⟨this.1, (upperEsc_cons_sep hsep _).2 this.2⟩
+
+theorem alpha_no_pct {s : Str} (h : ∀ c ∈ s, isAsciiAlpha c = true) : '%' ∉ s := by
+  intro hm; have := h _ hm; revert this; decide
+
+/-- the cleaned string has upper-case escapes (the default protocol is made of letters) -/
+theorem upperEsc_cleanUrl (u dp : Str)
+    (hdp : ∀ c ∈ rstripChars dp [':', '/'], isAsciiAlpha c = true) :
+    UpperEsc (Canonicalize.cleanUrl u dp) := by
+  unfold Canonicalize.cleanUrl ensureProtocol
+  have hY := upperEsc_upperQuoted (strip (stripControl u))
+  have hp := upperEsc_of_no_pct (alpha_no_pct hdp)
+  have s1 : Sep ':' := ⟨by decide, by decide⟩
+  have s2 : Sep '/' := ⟨by decide, by decide⟩
+  cases protoLen (upperQuoted (strip (stripControl u))) with
+  | none =>
+    simp only
+    have e : rstripChars dp [':', '/'] ++ "://".toList ++ upperQuoted (strip (stripControl u)) =
+        rstripChars dp [':', '/'] ++ ':' :: ('/' :: ('/' :: upperQuoted (strip (stripControl u)))) := by
+      simp
+    rw [e]
+    exact (upperEsc_append_sep s1 _ _).2
+      ⟨hp, (upperEsc_cons_sep s2 _).2 ((upperEsc_cons_sep s2 _).2 hY)⟩
+  | some k =>
+    simp only
+    split
+    · have e : rstripChars dp [':', '/'] ++ [':'] ++ upperQuoted (strip (stripControl u)) =
+          rstripChars dp [':', '/'] ++ ':' :: upperQuoted (strip (stripControl u)) := by simp
+      rw [e]
+      exact (upperEsc_append_sep s1 _ _).2 ⟨hp, hY⟩
+    · exact hY
+
+/-- the text components of a parse all have upper-case escapes -/
+structure UpFacts (p : Parsed) : Prop where
+  path : UpperEsc p.path
+  query : UpperEsc p.query
+  fragment : UpperEsc p.fragment
+  user : ∀ u, p.username = some u → UpperEsc u
+  pass : ∀ u, p.password = some u → UpperEsc u
+
+theorem upFacts {c S rest : Str} (h : Cleaned c S rest) (hu : UpperEsc c) {p : Parsed}
+    (hp : parseUrl c = some p) : UpFacts p := by
+  have s1 : Sep ':' := ⟨by decide, by decide⟩
+  have s2 : Sep '/' := ⟨by decide, by decide⟩
+  have hrest : UpperEsc rest := by
+    rw [h.eq] at hu
+    have := ((upperEsc_append_sep s1 _ _).1 hu).2
+    exact (upperEsc_cons_sep s2 _).1 ((upperEsc_cons_sep s2 _).1 this)
+  unfold parseUrl at hp
+  cases hr : urlsplit c [] with
+  | none => rw [hr] at hp; cases hp
+  | some r =>
+    rw [hr] at hp
+    simp only at hp
+    cases hpo : Py.port r.netloc with
+    | none => rw [hpo] at hp; cases hp
+    | some po =>
+      rw [hpo] at hp
+      simp only [Option.some.injEq] at hp
+      subst hp
+      rw [urlsplit_cleaned h] at hr
+      split at hr
+      · cases hr
+      rename_i hok
+      simp only [Option.some.injEq] at hr
+      subst hr
+      obtain ⟨hnl, htl⟩ := upperEsc_takeDrop hrest
+      have hf := upperEsc_splitFirst (sep := '#') ⟨by decide, by decide⟩ htl
+      have hq := upperEsc_splitFirst (sep := '?') ⟨by decide, by decide⟩ hf.1
+      refine ⟨hq.1, hq.2, hf.2, ?_, ?_⟩
+      · intro u0 hu0
+        simp only [parsedOf] at hu0
+        unfold username userinfo at hu0
+        have hsl := splitLast_spec (rest.takeWhile (fun c => !isNetlocDelim c)) '@'
+        cases hui : (splitLast (rest.takeWhile (fun c => !isNetlocDelim c)) '@').1 with
+        | none => rw [hui] at hu0; cases hu0
+        | some ui =>
+          rw [hui] at hu0
+          simp only [Option.some.injEq] at hu0
+          subst hu0
+          have hui' : UpperEsc ui := by
+            have e := hsl.1 ui hui
+            rw [e] at hnl
+            exact ((upperEsc_append_sep ⟨by decide, by decide⟩ _ _).1 hnl).1
+          exact (upperEsc_splitFirst s1 hui').1
+      · intro u0 hu0
+        simp only [parsedOf] at hu0
+        unfold password userinfo at hu0
+        have hsl := splitLast_spec (rest.takeWhile (fun c => !isNetlocDelim c)) '@'
+        cases hui : (splitLast (rest.takeWhile (fun c => !isNetlocDelim c)) '@').1 with
+        | none => rw [hui] at hu0; cases hu0
+        | some ui =>
+          rw [hui] at hu0
+          simp only at hu0
+          have hui' : UpperEsc ui := by
+            have e := hsl.1 ui hui
+            rw [e] at hnl
+            exact ((upperEsc_append_sep ⟨by decide, by decide⟩ _ _).1 hnl).1
+          have := (upperEsc_splitFirst s1 hui').2
+          rw [hu0] at this
+          exact this
+
 end Ural.CanonIdem
